@@ -130,6 +130,7 @@ def worker(spec):
             pending_b = {}
             modglue = {}
             modflavor = {}
+            builtin_registered = set()
             retired = []  # module objects removed earlier (candidates for re-insertion)
             ops = []
             res.evaluations += 1
@@ -147,7 +148,10 @@ def worker(spec):
                     present[n] = m
                     modglue[id(m)] = flavor in ("module", "both", "raising_module", "importing_module")
                     modflavor[id(m)] = flavor
-                    if flavor in ("builtin", "both", "raising_builtin", "importing_builtin") and n not in _glue.builtin_glue_pending:
+                    # stackscope registers at most one built-in glue per module name (builtin_glue asserts it)
+                    if flavor in ("builtin", "both", "raising_builtin", "importing_builtin") \
+                            and n not in _glue.builtin_glue_pending and n not in builtin_registered:
+                        builtin_registered.add(n)
                         _glue.builtin_glue_pending[n] = mk_builtin(n, flavor)
                         pending_b[n] = flavor
                     ops.append(("add", n, flavor))
